@@ -570,7 +570,9 @@ class TaskScenario(ScenarioData):
                     # No explicit end - derive from:
                     # 1. Predecessors with onstart deps (our END <= their START)
                     # 2. Successors (tasks depending on this - our END <= their START)
-                    latest_end = self.project["end"]  # Default to project end
+                    # Default to the declared project end (not the extended horizon: the work of
+                    # another task or scenario must not move this one)
+                    latest_end = self.project.declaredEnd()
 
                     # Check onstart dependencies - our END must be before predecessor's START
                     # with gapduration subtracted if specified
@@ -648,7 +650,7 @@ class TaskScenario(ScenarioData):
                             self.currentSlotIdx -= 1
                 else:
                     # ALAP mode, end at project end
-                    self.currentSlotIdx = self.project.dateToIdx(self.project["end"]) - 1
+                    self.currentSlotIdx = self.project.dateToIdx(self.project.declaredEnd()) - 1
                     # Find the last working slot
                     lowerLimit = self.project.dateToIdx(self.project["start"])
                     if effort > 0 and allocations:
